@@ -26,6 +26,21 @@ CHECKS = {
  "C05": ("exploration", "property-based testing against a reference scope model (R-scope = R-tree + R-css)",
          "Generated handler combinations (element/end-tag/text/comments per selector, document handlers, optional content-removing mutation) x documents x schedules; the full invocation log (which handler, which token, order) must equal the log computed from the scope model.",
          "Order between elements closed by one end tag and between several end handlers is not fixed by the property and compared as a multiset.", "4/C05"),
+ "C09": ("exploration", "property-based testing: metamorphic (fresh rewriter per prefix vs any schedule) plus a latency reference model over the generator's layout, exhaustive prefix enumeration per input",
+         "For every prefix length of every generated input a fresh rewriter given the prefix in one write is the reference: other schedules must have emitted exactly as much; with no handlers the pending bytes must fit R-latency (nothing after complete tokens or in text, '<'..name for an unfinished tag, short look-aheads), with handlers at most the single unfinished token.",
+         "R-latency is derived from reading the tokenizer's look-ahead sequences; open finding C09-foreign-tags-buffered classified by signature.", "4/C09"),
+ "C10": ("fault_enumeration", "property-based testing with a swept fault parameter (memory limit) and invariants over the sweep",
+         "Growth-targeted inputs x handler configurations x fixed preallocation x schedules, with the memory limit swept densely: result is Ok or MemoryLimitExceeded, accounted usage (hook) and retained bytes never exceed the limit after a successful call, success is monotone in the limit with identical output, and the failing call is deterministic.",
+         "Uses the _verif_hooks accessor; the tree-builder simulator's namespace stack is outside the limiter (DESIGN section 7).", "4/C10"),
+ "C11": ("fault_enumeration", "property-based testing with exhaustive fault injection (every handler invocation index, memory-limit sweep) and a byte-conservation oracle",
+         "For every generated (input, schedule, observer/insert-only handler set, bail-out handlers, flags) every handler invocation fails once and the memory limit is swept; at the moment the error returns sink (sentinels removed) + unwritten input must equal the input, bail-out handlers run exactly once in order only for their flag's error kind, and nothing is flushed without the flag.",
+         "Documented exceptions accepted only in their exact shape; open finding C11-decoder-held-bytes-lost classified by signature.", "4/C11"),
+ "C12": ("fault_enumeration", "property-based testing over call histories with exhaustive fault injection and a sink-protocol monitor",
+         "Histories write*;end with empty writes/documents, empty-string mutations, charset switching and injected faults at every handler index / memory limits: the ordered sink log must start with set_encoding, contain a zero-length chunk exactly once as the last call of a successful end(), receive nothing after an error, a poked rewriter must panic without output, and non-graceful failures leave a prefix of the complete output.",
+         "The harness pokes the rewriter after an error inside catch_unwind.", "4/C12"),
+ "C15": ("exploration", "property-based testing / fuzz-style generation (bytes, mutated documents, selector strings, settings) with crash oracle, child-process pathological families and deterministic instruction-count ratios",
+         "Arbitrary bytes, selector strings and settings must yield Ok/Err: no panic with debug assertions and overflow checks on, no internal error surfacing as ContentHandlerError, no abort/stack overflow in 10 large pathological families (child processes), and instruction counts at n and 4n (cachegrind) must stay below ratio 8.",
+         "A hang is only ever reported as inconclusive by the watchdog; valgrind cachegrind instruction counts are deterministic for a fixed binary.", "4/C15"),
 }
 PENDING = {}
 ALL = [f"C{i:02d}" for i in range(1, 19)]
